@@ -102,6 +102,90 @@ theorem tie_get_lanelet_id (n : Net) (g : PolyObj) :
   unfold Gen.LaneletNetwork_get_lanelet_id_by_shapely_polygon idOfPoly dictIdx
   cases dictGet n.idOf g.addr <;> rfl
 
+/-! ### find_lanelet_by_shape -/
+
+theorem getItem_mid {α} (pre : List α) (g : α) (gs : List α) : CR.Py.getItem (pre ++ g :: gs) (pre.length : Int) = .ok g := by
+  simp [CR.Py.getItem, pyGet?]
+
+/-- the loop of `find_lanelet_by_shape` over the indices handed out by the tree query, started anywhere in the tree -/
+theorem prim_loop (env isects : List Pt → Prim → Bool) (n : Net) (s : Prim) (all : List PolyObj) (hT : n.tree = some all) :
+    ∀ (gs pre : List PolyObj) (res : List Int), all = pre ++ gs →
+      (((gs.zipIdx pre.length).filter (fun e => env e.1.ring s)).map (fun e => (e.2 : Int))).foldlM
+        (fun res x => treeGeom n.tree x >>= fun g =>
+          if isects g.ring s = true then (idOfPoly n g >>= fun i => pure (res ++ [i])) else pure res) res
+      = (fun ids => res ++ ids) <$> (gs.filter (fun g => env g.ring s && isects g.ring s)).mapM (idOfPoly n) := by
+  intro gs
+  induction gs with
+  | nil => intro pre res _; simp
+  | cons g gs ih =>
+    intro pre res hall
+    have hall' : all = (pre ++ [g]) ++ gs := by simp [hall]
+    have ih' := ih (pre ++ [g])
+    simp only [List.length_append, List.length_cons, List.length_nil, Nat.zero_add] at ih'
+    simp only [List.zipIdx_cons, List.filter_cons]
+    by_cases he : env g.ring s = true
+    · have hg : treeGeom n.tree (pre.length : Int) = .ok g := by
+        simp only [treeGeom, hT, hall]; exact getItem_mid pre g gs
+      simp only [he, if_true, List.map_cons, List.foldlM_cons, hg, Bool.true_and]
+      by_cases hi : isects g.ring s = true
+      · cases hid : idOfPoly n g with
+        | error e => simp [hi, hid, List.mapM_cons, bind, Except.bind, Functor.map, Except.map]
+        | ok i =>
+          have := ih' (res ++ [i]) hall'
+          simp only [hi, hid, ↓reduceIte, List.mapM_cons, bind, Except.bind, pure, Except.pure] at this ⊢
+          rw [this]
+          cases (gs.filter (fun g => env g.ring s && isects g.ring s)).mapM (idOfPoly n) <;>
+            simp [Functor.map, Except.map]
+      · have hi' : isects g.ring s = false := Bool.eq_false_iff.2 hi
+        have := ih' res hall'
+        simp only [hi', Bool.false_eq_true, ↓reduceIte, bind, Except.bind, pure, Except.pure] at this ⊢
+        exact this
+    · have he' : env g.ring s = false := Bool.eq_false_iff.2 he
+      simp only [he', Bool.false_eq_true, if_false, Bool.false_and]
+      exact ih' res hall'
+
+/-- `find_lanelet_by_shape(Circle | Polygon | Rectangle)` of the current source — tree query by envelope, exact test
+    `intersects`, reverse map by `id(polygon)` — is the model's `findByShape` with `meets = envelope && intersects`
+    (with `env = primEnvOverlap`, `isects = ringMeets` that is `treeMeets`, the predicate of `C06_find_shape`). -/
+theorem tie_find_lanelet_by_shape_prim (env isects : List Pt → Prim → Bool) (n : Net) (s : Prim) :
+    Gen.LaneletNetwork_find_lanelet_by_shape_prim env isects n s
+      = findByShape (fun A s => env A s && isects A s) n (.prim s) := by
+  unfold Gen.LaneletNetwork_find_lanelet_by_shape_prim findByShape findPrim
+  cases hT : n.tree with
+  | none => simp [strQuery, bind, Except.bind]
+  | some all =>
+    have key := prim_loop env isects n s all hT all [] [] (by simp)
+    simp only [List.length_nil, hT] at key
+    simp only [strQuery, lfoldlM, bind, Except.bind, pure, Except.pure, hT, tie_get_lanelet_id] at key ⊢
+    rw [key]
+    cases (all.filter (fun g => env g.ring s && isects g.ring s)).mapM (idOfPoly n) <;> simp [Functor.map, Except.map]
+
+theorem appendNew_fold (ids : List Int) : ∀ res : List Int,
+    ids.foldl (fun res i => if (!listHas res i) = true then res ++ [i] else res) res = appendNew res ids := by
+  induction ids with
+  | nil => intro res; rfl
+  | cons i ids ih =>
+    intro res
+    simp only [List.foldl_cons, appendNew, ih]
+    by_cases h : i ∈ res <;> simp [listHas, h]
+
+/-- `find_lanelet_by_shape(ShapeGroup)`: the lanelets of every member, each id once, in order of first appearance. -/
+theorem tie_find_lanelet_by_shape_group (env isects : List Pt → Prim → Bool) (n : Net) (ss : List Prim) :
+    Gen.LaneletNetwork_find_lanelet_by_shape_group env isects n ss
+      = findByShape (fun A s => env A s && isects A s) n (.group ss) := by
+  unfold Gen.LaneletNetwork_find_lanelet_by_shape_group findByShape
+  simp only [lfoldlM, lfoldl, tie_find_lanelet_by_shape_prim, findByShape, appendNew_fold]
+  generalize ([] : List Int) = res
+  induction ss generalizing res with
+  | nil => simp [findGroup, pure, Except.pure]
+  | cons s ss ih =>
+    simp only [List.foldlM_cons, findGroup]
+    cases h : findPrim (fun A s => env A s && isects A s) n s with
+    | error e => simp [bind, Except.bind]
+    | ok ids =>
+      simp only [bind, Except.bind, pure, Except.pure] at ih ⊢
+      exact ih _
+
 /-! ### shapes (shape.py) -/
 
 theorem tie_rect_compute_vertices (l w : Rat) (ctr : Pt) (cs : Rat × Rat) :
